@@ -17,6 +17,7 @@ from __future__ import annotations
 
 import ast
 import collections
+import math as _math
 import re
 import string as _string
 import textwrap as _textwrap
@@ -414,6 +415,9 @@ class Interp:
             "random": StubModule("random", {
                 "randint": lambda a, b: a, "getrandbits": lambda k: 12345,
                 "random": lambda: 0.5}),
+            "math": StubModule("math", {
+                k: getattr(_math, k) for k in dir(_math)
+                if not k.startswith("_")}),
             "collections": StubModule(
                 "collections", {"deque": collections.deque}),
             "types": StubModule("types", {"FunctionType": FUNCTION_TYPE}),
